@@ -12,6 +12,7 @@
  *   str[:lo..hi,...]                                       string with length parts
  *   t:<module>:<typedef>                                   derived type of an IETF module (laws only, no model)
  *   U(<ty>|<ty>|...)                                       union of the member types (a member may itself be U(...))
+ *   lref(<ty>)                                             leafref (require-instance false) to a sibling leaf of type <ty>; alone or as a union member
  *   pstr:[lo..hi,...]:<lvl>[/<lvl>...]                     string with patterns; a level is `;`-separated [!]<hex-pattern> (`!` =
  *                                                          invert-match); several levels = a typedef chain, one level per typedef,
  *                                                          the length parts sit on the last level
@@ -184,6 +185,7 @@ struct rctx {
     char *imports; size_t il;            /* import statements */
     char *body; size_t bl;               /* typedefs / identities */
     int ntd;                             /* typedef counter */
+    char *cbody; size_t cl; int ntg;     /* leafref: target leaves inside container c */
     int ietf;                            /* needs the ietf imports */
     char *idmods; size_t ml;             /* identityref: module names */
     char leafmod[64];                    /* identityref: name the leaf module must have */
@@ -362,6 +364,16 @@ render_type(const char *d, struct rctx *rc)
     size_t hl = colon ? (size_t)(colon - d) : strlen(d);
     int i;
 
+    if (!strncmp(d, "lref(", 5) && d[strlen(d) - 1] == ')') {
+        /* leafref (require-instance false) to a sibling leaf of the type inside the parentheses */
+        char *inner = strndup(d + 5, strlen(d) - 6), *ty = render_type(inner, rc);
+        free(inner);
+        if (!ty) return NULL;
+        sb_add(&rc->cbody, &rc->cl, " leaf tg%d { %s }", rc->ntg, ty);
+        free(ty);
+        sb_add(&buf, &len, "type leafref { path \"../tg%d\"; require-instance false; }", rc->ntg++);
+        return buf;
+    }
     if (d[0] == 'U' && d[1] == '(' && d[strlen(d) - 1] == ')') {
         sb_add(&buf, &len, "type union {");
         if (render_members(d + 2, strlen(d) - 3, rc, &buf, &len) < 1) { free(buf); return NULL; }
@@ -592,7 +604,7 @@ get_type(const char *desc)
         else snprintf(name, sizeof name, "vtm%zu", ntys);
         sb_add(&pre, &pl, "%s%s%s", rc.ietf ? IMPORTS : "", rc.imports ? rc.imports : "", rc.body ? rc.body : "");
         sb_add(&sch, &sl, "module %s { yang-version 1.1; namespace \"urn:%s\"; prefix v;%s"
-                " container c { leaf-list l { %s } leaf s { %s } } }", name, name, pre, yt, yt);
+                " container c {%s leaf-list l { %s } leaf s { %s } } }", name, name, pre, rc.cbody ? rc.cbody : "", yt, yt);
         if (lys_parse_mem(ctx, sch, LYS_IN_YANG, &mod) == LY_SUCCESS) {
             t->mod = mod;
             t->c = lys_find_child(NULL, mod, "c", 0, 0, 0);
@@ -607,7 +619,7 @@ get_type(const char *desc)
         }
         free(sch); free(pre);
     }
-    free(yt); free(rc.imports); free(rc.body); free(rc.idmods);
+    free(yt); free(rc.imports); free(rc.body); free(rc.idmods); free(rc.cbody);
     ntys++;
     refresh_types();
     ly_err_clean(ctx, NULL);
